@@ -118,13 +118,14 @@ Record world := mkWorld {
   g_oruns : list ent;                               (* ghost: one entry per run of the inner system of a `once` wrapper *)
   g_auto : list ent;                                (* ghost: entities for which an auto-despawn signal was ever prepared *)
   g_sdrops : list ent;                              (* ghost: one entry per drop of a live system state (boxed callback) *)
+  g_dprep : list ent;                               (* ghost: target of every applied command that draws no ticket (plain system command, resource reaction) *)
   (* observation *)
   log : list ev;
 }.
 #[export] Instance eta_world : Settable _ := settable! mkWorld
   <alive; comps; storage; cbs; ereactors; dtrackers; dataents; xlocals; resvals; removed; removed_seq; generation; next_ent;
    sigs; next_sig; gc_chan; comp_tbl; desp_tbl; any_tbl; res_tbl; bc_tbl; removal_checkers; despawn_chan;
-   counter; buffer; ticket_ctr; tr_ev; tr_se; tr_er; tr_de; bound; tokens; spawned; g_prep; g_claim; g_runs; g_oruns; g_auto; g_sdrops; log>.
+   counter; buffer; ticket_ctr; tr_ev; tr_se; tr_er; tr_de; bound; tokens; spawned; g_prep; g_claim; g_runs; g_oruns; g_auto; g_sdrops; g_dprep; log>.
 
 Definition FIRST_INTERNAL : N := 1000000.
 Definition PLACEHOLDER : N := 500000.
@@ -138,7 +139,7 @@ Definition init_world : world := {|
   comp_tbl := []; desp_tbl := []; any_tbl := []; res_tbl := []; bc_tbl := []; removal_checkers := []; despawn_chan := [];
   counter := 0; buffer := []; ticket_ctr := 0;
   tr_ev := empty_trk 0; tr_se := empty_trk 0; tr_er := empty_trk (0, 0, RIns UNIT_TY); tr_de := empty_trk (0, None);
-  bound := []; tokens := []; spawned := []; g_prep := []; g_claim := []; g_runs := []; g_oruns := []; g_auto := []; g_sdrops := []; log := [] |}.
+  bound := []; tokens := []; spawned := []; g_prep := []; g_claim := []; g_runs := []; g_oruns := []; g_auto := []; g_sdrops := []; g_dprep := []; log := [] |}.
 
 Definition emit (e : ev) (w : world) : world := w <| log ::= fun l => l ++ [e] |>.
 Definition note_claim (k : N) (s : ent) (items : list pitem) (w : world) : world := w <| g_claim ::= fun l => l ++ [(k, s, items)] |>.
